@@ -158,6 +158,28 @@ def search(ctx):
                 "what": "the emitted Lua assigns/reads a V-name outside any local/parameter binding: a Lua global shared by all activations",
                 "lua_body": body[:4000], "case_line": line if cls == "gen" else None,
                 "programs_affected": len(st["free"])}
+    # dynamic half: reference interpreter vs Lua interpreter model on the recursion/closure-dense programs
+    try:
+        from props import c01
+        ok, out = c01.build(ctx)
+        if ok:
+            gens = [c[1] for c in st["cases"] if c[0] == "gen"][: (200 if ctx.tier == "quick" else 2000)]
+            import glob as _g
+            gens = [open(f).read() for f in sorted(_g.glob(os.path.join(vlib.VERIF, "corpus", "c01", "*.sy")))] + gens
+            res = c01.compare(ctx, gens)
+            bad = [(g, d) for g, (v, d) in zip(gens, res) if v == "diff"]
+            if bad:
+                src, d = min(bad, key=lambda x: len(x[0]))
+                lines = src.rstrip("\n").split("\n")
+                small = vlib.shrink_seq(lines, lambda cands: [v == "diff" for v, _ in c01.compare(ctx, ["\n".join(c) + "\n" for c in cands])],
+                                        max_rounds=40)
+                src2 = "\n".join(small) + "\n"
+                v, d2 = c01.compare(ctx, [src2])[0]
+                return {"program": src2, "difference": d2 if v == "diff" else d,
+                        "what": "a value held across a call (or captured by a closure) differs between the reference interpreter and the "
+                                "emitted Lua run in the Lua interpreter model", "programs_affected": len(bad)}
+    except Exception as e:
+        vlib.log("dynamic search failed:", repr(e))
     return None
 
 
